@@ -816,7 +816,7 @@ def judge(hist, runs, fresh, given, model_ids, twin=None):
         for j in range(i + 1, len(procs)):
             both = procs[i][1] & procs[j][1]
             if both:
-                bad.append(("invented-uuid-reused", f"uuid {sorted(both)[0]} ({len(both)} in all) was invented in two different processes "
+                bad.append(("invented-uuid-repeats-across-processes", f"uuid {sorted(both)[0]} ({len(both)} in all) was invented in two different processes "
                             f"({procs[i][0]} and {procs[j][0]})" + host_before(ops, len(ops))))
                 break
         else:
